@@ -72,7 +72,10 @@ Fixpoint parse16_go (cur : pstate) (ls : list string) : option template16 :=
           | None =>
               match find_begin delims l with
               | Some (id, w, ib) => parse16_go (PB id w ib []) r
-              | None => option_map (cons (match chop_nl l with Some txt => Text txt | None => Raw l end)) (parse16_go P0 r)
+              | None => option_map (cons (match chop_nl l with
+                                          | Some txt => if no3 txt then Text txt else InitLine (parse_segs txt)   (* a tag outside blocks: the initial state *)
+                                          | None => Raw l
+                                          end)) (parse16_go P0 r)
               end
           end
       | PB id w ib acc =>
